@@ -363,6 +363,8 @@ class Run:
             idx = n["args"][1] if k == "opcall" else n["idx"]
             bt = self.ev(base, fr)
             it = self.ev(idx, fr)
+            if k == "index" and not (isinstance(it, tuple) and it and it[0] == "idx"):
+                return ("hp", lin_add(bt, it), "*")     # built-in subscript: p[k] is *(p + k)
             return ("tmp", self.X.index_term(bt, it))
         return ("tmp", self.ev(n, fr))
 
@@ -480,7 +482,10 @@ class Run:
             self._save(lv, v)
             return v
         if k == "index":
-            return self.X.index_term(self.ev(n["base"], fr), self.ev(n["idx"], fr))
+            bt, it_ = self.ev(n["base"], fr), self.ev(n["idx"], fr)
+            if isinstance(it_, tuple) and it_ and it_[0] == "idx":
+                return self.X.index_term(bt, it_)
+            return ("f", lin_add(bt, it_), "*")        # built-in subscript: p[k] is *(p + k)
         if k == "initlist":
             return ("ap", "{}",) + tuple(self.ev(c, fr) for c in n["ch"])
         if k == "sizeof":
